@@ -47,6 +47,10 @@ def cst_term(text):
     return f_cst(_cst_ids[text])
 
 
+def id_of(ty):
+    return mk_fn('IdOf', 1)(cst_term('type:' + re.sub(r'\s+', '', ty)))
+
+
 def mk_fn(name, n):
     k = (name, n)
     if k not in _fn_syms:
@@ -290,8 +294,9 @@ SEQ_ELEM_CALLS = re.compile(r'^(world::)?ResourceId::new(_with_dynamic_id)?::<|^
 
 
 class Exec:
-    def __init__(self, fn, loop_bound=3, stats=None, param_values=None):
+    def __init__(self, fn, loop_bound=3, stats=None, param_values=None, leaf_summaries=False):
         self.fn = fn
+        self.leaf_summaries = leaf_summaries
         self.loop_bound = loop_bound
         self.stats = stats if stats is not None else {'feasibility_queries': 0, 'solver_s': 0.0}
         self.param_values = param_values or {}
@@ -498,6 +503,23 @@ class Exec:
     # ---- calls with sequence semantics
     def intrinsic(self, callee, args, st):
         c = callee
+        # ResourceId::new::<X>() has one value per type X: canonical term (still recorded as an event)
+        m = re.match(r'^(?:world::)?ResourceId::new::<(.*)>$', c)
+        if m and not args:
+            res = id_of(m.group(1))
+            st.trace.append(Event(callee, [], res, []))
+            return T(res)
+        # summaries of the library's own leaf declarations (each leaf impl is itself checked by C06's
+        # leaf specification in the same run; the use graph must be acyclic - mirchecks checks that)
+        m = re.match(r"^<(Option<)?(?:data::|world::|shred::)*(Read|Write)<'_, (.*?)(?:, [^<>]*)?>(>)? as (?:system::)?SystemData<'_>>::(reads|writes)$", c)
+        if m and not args and self.leaf_summaries:
+            kind, ty, meth = m.group(2), m.group(3), m.group(5)
+            declared = (kind == 'Read' and meth == 'reads') or (kind == 'Write' and meth == 'writes')
+            seq = z3.Unit(f_rid(id_of(ty))) if declared else z3.Empty(SeqR)
+            res = fresh('ret')
+            st.trace.append(Event(callee, [], res, []))
+            st.notes.append('summary:' + callee)
+            return SeqV(seq)
         if re.match(r'^Vec::<(world::)?ResourceId>::new$', c):
             return SeqV(z3.Empty(SeqR))
         if re.match(r'^Vec::<(world::)?ResourceId>::append$', c):
